@@ -1642,6 +1642,7 @@ class Engine:
         # normal exit
         old_heap_state = st.fork()
         old_heap_state.env = env
+        n_pc0 = len(st.pc)
         self.havoc_after_call(st, c, mods)
         res = None
         if c.returns is not None and c.returns != NONE:
@@ -1663,7 +1664,55 @@ class Engine:
         st.pc.extend(post.pc[len(st.pc):])
         if c.returns == NONE or c.returns is None:
             return k(st, VNONE)
+        res = self.alias_result(st, c, res, se2, n_pc0)
         return k(st, res)
+
+    def alias_result(self, st, c, res, se2, n_pc0):
+        """a clause `result is E` / `implies(C, result is E)` whose condition holds on this path: the result IS that known reference,
+        so the fresh constant standing for it is replaced by E (heap reads through it then resolve)"""
+        if res is None or res.s[0] not in ("ref", "list") or not z3.is_const(res.t):
+            return res
+        for e in c.ensures:
+            node = ast.parse(e.strip(), mode="eval").body
+            cond, cmp_ = None, node
+            if isinstance(node, ast.Call) and isinstance(node.func, ast.Name) and node.func.id == "implies" and len(node.args) == 2:
+                cond, cmp_ = node.args[0], node.args[1]
+            while isinstance(cmp_, ast.BoolOp) and isinstance(cmp_.op, ast.And):
+                cmp_ = cmp_.values[0]
+            if not (isinstance(cmp_, ast.Compare) and len(cmp_.ops) == 1 and isinstance(cmp_.ops[0], ast.Is)
+                    and isinstance(cmp_.left, ast.Name) and cmp_.left.id == "result"):
+                continue
+            try:
+                target = se2.eval(cmp_.comparators[0])
+            except Unsupported:
+                continue
+            if target.s[0] not in ("ref", "list") or target.t.eq(res.t):
+                continue
+            if cond is not None:
+                cnd = se2.boolean(cond)
+                sv = z3.Solver()
+                sv.set("timeout", 2000)
+                sv.add(*[h for h in st.pc if not z3.is_quantifier(h)])
+                sv.add(z3.Not(cnd))
+                if sv.check() != z3.unsat:
+                    continue
+            sub = (res.t, target.t)
+            new_pc = []
+            for h in st.pc[n_pc0:]:
+                h2 = z3.substitute(h, sub)
+                if h.get_id() in TAGS:
+                    TAGS[h2.get_id()] = TAGS[h.get_id()]
+                new_pc.append(h2)
+            st.pc[n_pc0:] = new_pc
+            for nm in list(st.heap.arrs):
+                st.heap.arrs[nm] = z3.substitute(st.heap.arrs[nm], sub)
+            for g, gv in list(st.ghost.items()):
+                if isinstance(gv.t, tuple):
+                    st.ghost[g] = V(gv.s, tuple(z3.substitute(x, sub) if z3.is_expr(x) else x for x in gv.t))
+                elif z3.is_expr(gv.t):
+                    st.ghost[g] = V(gv.s, z3.substitute(gv.t, sub))
+            return V(res.s, target.t)
+        return res
 
     def havoc_after_call(self, st, c, mods):
         """effect of a callee known only by its contract: arrays named in `modifies` become arbitrary
